@@ -1,7 +1,7 @@
 (** Extraction of the executable models to OCaml.  Only [ExtrOcamlBasic] is used: [N],
     [Z], [positive], [nat] stay inductive; no [Extract Constant]. *)
 From Coq Require Import Extraction ExtrOcamlBasic.
-From WG Require Import Base.Prelude Codes.Codes BV.Model BV.RefSel BV.Bits.
+From WG Require Import Base.Prelude Codes.Codes BV.Model BV.RefSel BV.Bits Par.Splice Flags.Props.
 
 Extraction Language OCaml.
 
@@ -11,4 +11,6 @@ Extraction "model.ml"
   compress node_fields decode_graph decode_node rd_fields encode_graph valid_sel depths
   greedy_sel zuck_sel fields_len
   rd_bits enc_fields graph_bits node_bitlens prefix_sums offsets_bits dec_gammas
-  decode_records wf_records refs_in_chunk max_depth_ok record_succ.
+  decode_records wf_records refs_in_chunk max_depth_ok record_succ
+  par_comp task_queue legal_cuts segments
+  to_props parse_properties props_length from_props representable java_from_props version.
